@@ -26,6 +26,13 @@ pub fn run(o: &Opts) -> Res<()> {
             let nn = o.num("n", 20) as usize;
             run_scenario(&out, seed, move |net| lookup(net, seed, kind, nn))?
         }
+        "maint" => {
+            let peers = o.num("peers", 3) as usize;
+            let hours = o.num("minutes", 60);
+            run_scenario(&out, seed, move |net| maintenance(net, seed, peers, hours))?
+        }
+        "boot" => run_scenario(&out, seed, move |net| bootstrap_scn(net, seed))?,
+        "early" => run_scenario(&out, seed, move |net| early_search(net, seed))?,
         "flood" => {
             let corpus = o.req("corpus")?.to_owned();
             run_scenario(&out, seed, move |net| flood(net, seed, corpus))?
@@ -393,6 +400,209 @@ async fn lookup(net: Net, seed: u64, kind: String, n: usize) {
         net.with(|nn| nn.send_fail_all = false);
     }
     sleep_ms(6000).await;
+    api_state(&net, &dht, me).await;
+    net.log(json!({"ev":"End"}));
+}
+
+
+/// C11 / C18: one real node and `npeers` scripted contacts, each always answering or going silent at some time; the node's
+/// contacts are sampled every 5 virtual seconds for `minutes` minutes, with and without interleaved searches.
+async fn maintenance(net: Net, seed: u64, npeers: usize, minutes: u64) {
+    let mut rng = StdRng::seed_from_u64(seed);
+    let my_id = rand_id(&mut rng);
+    let mut nodes = oracle_universe(&mut rng, npeers, false, None);
+    // distinct buckets as far as possible (no bucket may fill up): vary the first byte
+    for (i, vn) in nodes.iter_mut().enumerate() {
+        vn.id[0] = my_id[0] ^ (0x80u8 >> (i % 8)) ^ if i >= 8 { 0x01 } else { 0 };
+    }
+    let horizon = minutes as i64 * 60_000;
+    let mut plan = vec![];
+    for (i, vn) in nodes.iter_mut().enumerate() {
+        // partition into always-answering and going-silent-at-t; keep the first contact answering so that bootstrap can succeed
+        let silent = i > 0 && (seed >> i) & 1 == 1;
+        if silent {
+            let t = match (seed + i as u64) % 5 { 0 => 10_000, 1 => 14 * 60_000 + 58_000, 2 => 15 * 60_000, 3 => horizon / 2, _ => rng.gen_range(20_000..horizon.max(40_000)) };
+            vn.mode = Mode::SilentFrom(t);
+            plan.push(json!({"id": bytes_json(&vn.id), "addr": addr_json(&vn.addr), "mode": "SilentFrom", "t": t}));
+        } else {
+            plan.push(json!({"id": bytes_json(&vn.id), "addr": addr_json(&vn.addr), "mode": "Answer", "t": 0}));
+        }
+    }
+    let oracle = Arc::new(Mutex::new(OracleNet::new(nodes)));
+    oracle.lock().unwrap().answer_delay_max = 300;
+    let addrs = oracle.lock().unwrap().addrs();
+    net.with(|n| n.faults.max_latency_ms = 600);
+    let me: SocketAddr = v4(10, 0, 0, 1, 7000);
+    net.log(json!({"ev":"Universe","nodes":oracle.lock().unwrap().universe_json()}));
+    net.add_scripted(&addrs, Box::new(oracle.clone()));
+    // the node is given one or all contacts; the others it learns by hearsay from the first (which names the closest 8)
+    let given: Vec<SocketAddr> = if seed % 2 == 0 { vec![addrs[0]] } else { addrs.clone() };
+    let dht = start_node(&net, &NodeCfg { addr: me, id: Some(my_id), read_only: seed % 3 == 0, announce_port: None, nodes: given, routers: vec![] });
+    net.log(json!({"ev":"Plan","node":addr_json(&me),"peers":plan}));
+    let _ = wait_bootstrapped(&net, &dht, me, 1).await;
+    let with_searches = seed % 4 == 1;
+    let mut sid = 10;
+    let steps = minutes * 12;
+    for k in 0..steps {
+        sleep_ms(5000).await;
+        api_contacts(&net, &dht, me).await;
+        if with_searches && k % 60 == 30 {
+            sid += 1;
+            let _ = search(&net, &dht, me, sid, rand_id(&mut rng), k % 120 == 30);
+        }
+        if k % 120 == 0 {
+            // a find_node probe by a scripted prober: the answer must not list purged contacts (checked as C09 on the wire)
+            net.inject(v4(10, 7, 0, 9, 4000), me, benc::q_find_node(&[9, 9, (k % 250) as u8], &rand_id(&mut rng), &my_id, None), 0);
+        }
+    }
+    sleep_ms(5000).await;
+    api_state(&net, &dht, me).await;
+    net.log(json!({"ev":"End"}));
+}
+
+/// C15: builder configurations, silent / erroring / garbage contacts, outages, concurrent bootstrapped() callers.
+async fn bootstrap_scn(net: Net, seed: u64) {
+    let mut rng = StdRng::seed_from_u64(seed);
+    let my_id = rand_id(&mut rng);
+    let variant = seed % 8;
+    let ncontacts: usize = match variant { 0 => 0, 1 => 1, 2 => 2, 3 => 8, 4 => 9, 5 => 30, 6 => 3, _ => 2 };
+    let mut nodes = oracle_universe(&mut rng, ncontacts.max(1) + 6, false, None);
+    for (i, vn) in nodes.iter_mut().enumerate().skip(1) {
+        if i < ncontacts {
+            vn.mode = match rng.gen_range(0..6) { 0 => Mode::Silent, 1 => Mode::ErrorReply, 2 => Mode::Garbage, _ => Mode::Answer };
+        }
+    }
+    let oracle = Arc::new(Mutex::new(OracleNet::new(nodes)));
+    oracle.lock().unwrap().answer_delay_max = 200;
+    let addrs = oracle.lock().unwrap().addrs();
+    net.with(|n| n.faults.max_latency_ms = 500);
+    net.add_scripted(&addrs, Box::new(oracle.clone()));
+    let me: SocketAddr = v4(10, 0, 0, 1, 7000);
+    let contacts: Vec<SocketAddr> = addrs[..ncontacts].to_vec();
+    // variants 6 / 7: a contact given both as node and as router, duplicated routers
+    let routers: Vec<String> = match variant { 6 => vec![contacts[0].to_string(), contacts[1].to_string()], 7 => vec![contacts[0].to_string()], _ => vec![] };
+    // outage: the network is unreachable from the start for `outage` ms (plain-node configurations)
+    let outage: u64 = match seed % 7 { 0 => 0, 1 => 30_000, 2 => 600_000, 3 => 1_500_000, 4 => 1_850_000 + (seed * 37_000) % 700_000, 5 => 2_400_000 + (seed * 91_000) % 900_000, _ => 7_200_000 };
+    let outage = if ncontacts == 0 { 0 } else { outage };
+    net.with(|n| n.down = outage > 0);
+    let dht = start_node(&net, &NodeCfg { addr: me, id: Some(my_id), read_only: seed % 2 == 0, announce_port: None, nodes: contacts.clone(), routers });
+    net.log(json!({"ev":"Responsive","node":addr_json(&me),"since":outage as i64}));
+    let mut waiters = vec![];
+    let mut wid = 0;
+    for _ in 0..rng.gen_range(1..4) {
+        wid += 1;
+        waiters.push(wait_bootstrapped(&net, &dht, me, wid));
+        sleep_ms(rng.gen_range(0..3000)).await;
+    }
+    if outage > 0 {
+        let now = net.with(|n| n.rec.now()) as u64;
+        // flapping: short reachability windows that are too short to help (only the initial datagram gets through)
+        if seed % 3 == 0 && outage > 120_000 {
+            sleep_ms(50_000).await;
+            net.with(|n| n.down = false);
+            sleep_ms(40).await;
+            net.with(|n| n.down = true);
+        }
+        let now2 = net.with(|n| n.rec.now()) as u64;
+        // more waiters during the outage
+        sleep_ms((outage - now2.min(outage)) / 2).await;
+        wid += 1;
+        waiters.push(wait_bootstrapped(&net, &dht, me, wid));
+        api_state(&net, &dht, me).await;
+        let now3 = net.with(|n| n.rec.now()) as u64;
+        sleep_ms(outage.saturating_sub(now3)).await;
+        net.with(|n| n.down = false);
+        let _ = now;
+    }
+    // wait up to 12 minutes for everybody
+    for w in waiters {
+        let _ = tokio::time::timeout(std::time::Duration::from_secs(720), w).await;
+    }
+    // a second outage after the node was bootstrapped: waiters registered during a RE-bootstrap must be told as well
+    if ncontacts > 0 && ncontacts < 10 && seed % 2 == 1 {
+        net.with(|n| n.down = true);
+        sleep_ms(rng.gen_range(20_000..200_000)).await;
+        let mut ws = vec![];
+        for _ in 0..2 {
+            wid += 1;
+            ws.push(wait_bootstrapped(&net, &dht, me, wid));
+            sleep_ms(rng.gen_range(0..5000)).await;
+        }
+        let t = net.with(|n| { n.down = false; n.rec.now() });
+        net.log(json!({"ev":"Responsive","node":addr_json(&me),"since":t}));
+        for w in ws {
+            let _ = tokio::time::timeout(std::time::Duration::from_secs(720), w).await;
+        }
+    }
+    api_state(&net, &dht, me).await;
+    api_contacts(&net, &dht, me).await;
+    api_local_addr(&net, &dht, me).await;
+    net.log(json!({"ev":"End"}));
+}
+
+/// C16: searches issued before / during / after the initial bootstrap, each compared with a twin issued afterwards.
+async fn early_search(net: Net, seed: u64) {
+    let mut rng = StdRng::seed_from_u64(seed);
+    let my_id = rand_id(&mut rng);
+    let target = rand_id(&mut rng);
+    let mut nodes = oracle_universe(&mut rng, 12 + (seed % 3) as usize * 10, false, Some(target));
+    for vn in nodes.iter_mut() {
+        if rng.gen_range(0..2) == 0 {
+            vn.peers.insert(target, (0..rng.gen_range(1..4)).map(|j| v4(172, 16, rng.gen(), j, 5000)).collect());
+        }
+    }
+    // bootstrap duration: the first contact may be unreachable for the first seconds (the first attempt then fails)
+    let late = seed % 4 == 2;
+    if late {
+        nodes[0].mode = Mode::DelayMs(0);
+    }
+    let oracle = Arc::new(Mutex::new(OracleNet::new(nodes)));
+    oracle.lock().unwrap().answer_delay_max = if seed % 2 == 0 { 50 } else { 700 };
+    let addrs = oracle.lock().unwrap().addrs();
+    net.with(|n| { n.faults.max_latency_ms = 400; n.down = late; });
+    net.log(json!({"ev":"Universe","nodes":oracle.lock().unwrap().universe_json()}));
+    net.log(json!({"ev":"Scenario","coop":false,"kind":"early"}));
+    net.add_scripted(&addrs, Box::new(oracle.clone()));
+    let me: SocketAddr = v4(10, 0, 0, 1, 7000);
+    let dht = start_node(&net, &NodeCfg { addr: me, id: Some(my_id), read_only: true, announce_port: None, nodes: vec![addrs[0]], routers: vec![] });
+    let w = wait_bootstrapped(&net, &dht, me, 1);
+    // early searches at different moments; the same hash may be searched twice (with and without announce)
+    let moments: Vec<u64> = match seed % 5 { 0 => vec![0], 1 => vec![0, 100], 2 => vec![0, 0, 3100], 3 => vec![50, 1200, 2600, 3300], _ => vec![0, 4000] };
+    let mut early = vec![];
+    let mut sid = 0;
+    let mut at = 0;
+    for (k, m) in moments.iter().enumerate() {
+        sleep_ms(m - at).await;
+        at = *m;
+        sid += 1;
+        // the oracle stores announces, so only non-announcing searches have comparable twins; announcing ones are checked for
+        // being carried out at all
+        let ann = k % 2 == 1;
+        early.push((sid, ann, search(&net, &dht, me, sid, target, ann)));
+        if late && at >= 3000 {
+            net.with(|n| n.down = false);
+        }
+    }
+    if late {
+        sleep_ms(3000u64.saturating_sub(at)).await;
+        net.with(|n| n.down = false);
+    }
+    let _ = tokio::time::timeout(std::time::Duration::from_secs(900), w).await;
+    // the twin: the same search right after bootstrapped() resolved (nothing was announced yet: announces happen at the end
+    // of the early searches, which run concurrently; therefore the twin is compared with the non-announcing early searches only
+    // when no announcing early search exists)
+    let any_ann = early.iter().any(|(_, a, _)| *a);
+    sid += 1;
+    let twin_sid = sid;
+    let twin = search(&net, &dht, me, twin_sid, target, false);
+    for (s, ann, h) in early {
+        let _ = tokio::time::timeout(std::time::Duration::from_secs(120), h).await;
+        if !ann && !any_ann {
+            net.log(json!({"ev":"Twin","node":addr_json(&me),"a":s,"b":twin_sid}));
+        }
+    }
+    let _ = tokio::time::timeout(std::time::Duration::from_secs(120), twin).await;
+    sleep_ms(5000).await;
     api_state(&net, &dht, me).await;
     net.log(json!({"ev":"End"}));
 }
